@@ -85,7 +85,7 @@ def _path_truth(path):
     return {k: (c == 0) for k, c in path}
 
 
-def _guard_semantics(ctx, label, oks, raises):
+def _guard_semantics(ctx, label, oks, raises, rule="R35.4"):
     """a path raises <=> some axis has (a != 0 or b != 0) and w*dt >= 2 (from the path's own decisions)"""
     leaf = {}
     for c in AX:
@@ -119,7 +119,7 @@ def _guard_semantics(ctx, label, oks, raises):
                 hit = True
         if not hit:
             bad.append(("rejected although no active axis violates the bound", str(out)[:80]))
-    ctx.ob("R35.4", f"{label}:guard", not bad and bool(oks) and bool(raises), f"every path enumerated ({len(oks)} accepting, {len(raises)} raising): a path raises exactly when a coupled axis has omega_0*dt >= 2; uncoupled axes are exempt", bad[:3], "raise <=> exists axis: (a != 0 or b != 0) and w0*dt >= 2")
+    ctx.ob(rule, f"{label}:guard", not bad and bool(oks) and bool(raises), f"every path enumerated ({len(oks)} accepting, {len(raises)} raising): a path raises exactly when a coupled axis has omega_0*dt >= 2; uncoupled axes are exempt", bad[:3], "raise <=> exists axis: (a != 0 or b != 0) and w0*dt >= 2")
 
 
 def _coefficients(ctx):
@@ -321,7 +321,7 @@ def _accessors(ctx):
     ctx.ob("R35.3", "DispersionModel.susceptibility_axes", bad is None, "declared model: chi_axis = sum_p (a - i w b)/(w0^2 - w^2 - i g w) with each pole's own axis parameters", bad, "sum of pole forms")
 
 
-def _jury(ctx):
+def _jury(ctx, rule="R35.4"):
     for c in AX[:1]:
         F = _forms(c)
         c1, c2, D, w, g = F["c1"], F["c2"], F["D"], F["w"], F["g"]
@@ -332,7 +332,7 @@ def _jury(ctx):
             ("(1 - c2) D == 2", (1 - c2) * D, Rat.const(2)),
         ]
         for txt, lhs, rhs in ids:
-            ctx.ob("R35.4", f"jury:{txt}", lhs.equals(rhs), "Jury margin identity for z^2 - c1 z - c2 (with D = 1 + g dt/2 > 0): with 0 <= w0 dt < 2 and g >= 0 all four margins are >= 0, so no root lies outside the unit circle", lhs.fmt(), rhs.fmt())
+            ctx.ob(rule, f"jury:{txt}", lhs.equals(rhs), "Jury margin identity for z^2 - c1 z - c2 (with D = 1 + g dt/2 > 0): with 0 <= w0 dt < 2 and g >= 0 all four margins are >= 0, so no root lies outside the unit circle", lhs.fmt(), rhs.fmt())
     ctx.assume("D = 1 + gamma*dt/2 > 0 (gamma >= 0, dt > 0); omega_0*dt < 2 is enforced by the guard on every coupled axis (R35.4 guard rule)")
 
 
